@@ -4,8 +4,11 @@ Real code (entered through the public API a user calls to checkpoint):
   io.SequenceDataSource(...).shard(...).iterate() / io.ShardedIterable(...).iterate():  `it.state`, `.from_state(state)`
   transform.TreeTransform(...).data_source(ds)....agg(...).make().iterate():            `it.state`, `.from_state(state)`,
                                                                                         `it.agg_result`
-Model: lean/MlModel/Model/Resume.lean; theorems: lean/MlModel/Properties/C10.lean; witnesses of the
-open findings: lean/MlModel/Witness/C10.lean.
+  chains of 1..5 named transforms (`.chain(TreeTransform(name=...)...)`, one runner each), an aggregate at any subset of
+  the stages: additionally `it.agg_state`, `StopIteration.value` (AggregateResult) and `it.agg_result` after every op
+  (harness/lib_resume_chain.py; model lean/MlModel/Model/ResumeChain.lean, wire name "resumechain")
+Model: lean/MlModel/Model/Resume.lean, ResumeChain.lean; theorems: lean/MlModel/Properties/C10.lean; witnesses of the
+open findings and of the seeded regression C10-m3: lean/MlModel/Witness/C10.lean.
 
 A history is a list of `take k` / `ckpt` (capture `it.state`, keep iterating) / `restore` (abandon the
 running iterator, build a new one from the last captured state).  What was delivered after the last
@@ -16,10 +19,12 @@ import itertools
 
 from harness.core import deep_close
 from harness import lib_resume as L
+from harness import lib_resume_chain as LC
 
 PID = 'C10'
 TITLE = 'Checkpoint and resume continue exactly where iteration stopped'
 LEAN_MODULES = ['MlModel.Properties.C10', 'MlModel.Witness.C10']
+STAGE_NAMES = 'abcde'
 TRUSTED = [
     'modelled, not verified: MergedSequences slicing / _RangeIterator read-ahead (a slice iterator is a position in a '
     'list), copy.deepcopy of the aggregation state (value semantics in the model; aliasing is probed on the real '
@@ -31,13 +36,19 @@ TRUSTED = [
 ASSUMPTIONS = [
     'the random-access data does not raise (failing elements are the subject of C12)',
     'shard offsets do not exceed the shard length and shard_index < num_shards (C09 covers shard itself)',
-    'pipelines of one runner or of two chained named transforms (two runners); aggregate state copied by value',
+    'pipelines of one runner or chains of 1-5 named transforms (one runner each, row-wise: map / filter) with an aggregate '
+    'at any subset of the stages; aggregate state copied by value',
 ]
 RULE = ('corpus (witnesses of F1/F12/F16 and of the restore-twice aliasing), then small-exhaustive second-generation '
         'restores (every pair of cut points of sources of <= 7 elements under 9 shard chains, both source kinds), then '
         'random histories (<= 6 checkpoints, sources <= 30 elements, shard chains of depth <= 3, merged sequences, '
         'pipelines map / filter / batch / re-batch / two chained named transforms, three aggregates, num_threads in {0,1,2,4}, both restore '
-        'idioms) and ~8% rejected configurations (num_shards = 0); non-trivial = at least one restore that follows '
+        'idioms), chains of 1-5 named transforms with an aggregate at every subset of the stages (small-exhaustive: every '
+        'cut position incl. before the first and after the last element / after the observed StopIteration, x six history '
+        'shapes: one restore, second generation, restore-then-checkpoint-immediately, restore twice from one state, '
+        'checkpoint-continue-restore, third generation; then random chains with filters at random stages, three aggregate '
+        'kinds, random histories; every promised arm is enforced: exit 2 if a run misses one), '
+        'and ~8% rejected configurations (num_shards = 0); non-trivial = at least one restore that follows '
         'a delivered element while elements remain; distinct = distinct canonical case JSON')
 
 CHAINS = [
@@ -179,6 +190,9 @@ def gen_cases(ctx):
     ctx.count('checkpoints', sum(1 for o in ops if o[0] == 'ckpt'))
     ctx.count('restores', sum(1 for o in ops if o[0] == 'restore'))
     yield case
+  # chains of named transforms of any length, aggregates at any subset of the stages
+  for c in chain_cases(ctx):
+    yield c
   # rejected configurations
   for _ in range(60 if quick else 1500):
     n = rng.randrange(0, 8)
@@ -192,7 +206,198 @@ def gen_cases(ctx):
     yield dict(mk_case(src, mk_data(n), True, rand_ops(rng, n, 3)), malformed=True)
 
 
+
+# ----------------------------------------------------------------------------- chains of 1..5 named transforms
+
+CHAIN_SHAPES = {
+    'one-restore': lambda a, b: [['take', a], ['ckpt'], ['restore']],
+    'second-generation': lambda a, b: [['take', a], ['ckpt'], ['restore'], ['take', b], ['ckpt'], ['restore']],
+    'restore-then-ckpt': lambda a, b: [['take', a], ['ckpt'], ['restore'], ['ckpt'], ['restore'], ['take', b]],
+    'restore-twice': lambda a, b: [['take', a], ['ckpt'], ['restore'], ['take', b], ['restore']],
+    'ckpt-continue-restore': lambda a, b: [['take', a], ['ckpt'], ['take', b], ['restore']],
+    'third-generation': lambda a, b: [['take', a], ['ckpt'], ['restore'], ['take', b], ['ckpt'], ['restore'], ['take', 1],
+                                      ['ckpt'], ['restore']],
+}
+
+
+def mk_stage(i, a=1, b=0, drop=None, agg=None):
+  return dict(name=STAGE_NAMES[i], a=a, b=b, drop=drop, agg=agg)
+
+
+def subsets_of(nst, rng, quick):
+  """aggregate positions: every subset for <= 3 stages; for 4-5 stages every singleton, none, all, and random ones"""
+  alls = [frozenset(i for i in range(nst) if m >> i & 1) for m in range(1 << nst)]
+  if nst <= 3:
+    return alls
+  keep = [frozenset(), frozenset(range(nst))] + [frozenset([i]) for i in range(nst)]
+  rest = [x for x in alls if x not in keep]
+  rng.shuffle(rest)
+  return keep + rest[:(4 if quick else 12)]
+
+
+def count_chain(ctx, case, arm):
+  st = case['pipe']['stages']
+  nst = len(st)
+  ops = case['ops']
+  restores = sum(1 for o in ops if o[0] == 'restore')
+  ctx.count('chain_arm', arm)
+  ctx.count('chain_stages', nst)
+  for i, x in enumerate(st):
+    if x['agg']:
+      ctx.count('chain_agg_at', f'{nst}:{i}')
+      if restores and i < nst - 2:
+        ctx.count('chain_agg_before_last_two_restored', nst)
+  if not any(x['agg'] for x in st):
+    ctx.count('chain_agg_at', f'{nst}:none')
+  ctx.count('chain_restores', min(restores, 4))
+  if any(a[0] == 'restore' and b[0] == 'ckpt' for a, b in zip(ops, ops[1:])):
+    ctx.count('chain_restore_then_ckpt', nst)
+  if any(x['drop'] for x in st):
+    ctx.count('chain_filter', nst)
+
+
+def chain_cases(ctx):
+  rng, quick = ctx.rng, ctx.quick
+  n = 3
+  for nst in range(1, 6):
+    for sub in subsets_of(nst, rng, quick):
+      stages = [mk_stage(i, a=[1, 2, 1, 3, 1][i], b=[1, 0, -3, 0, 5][i], agg='sumcount' if i in sub else None)
+                for i in range(nst)]
+      # cut positions: 0 = before the first element, n = after the last, n + 1 = after the observed StopIteration
+      for shape, mk in CHAIN_SHAPES.items():
+        cuts = range(0, n + 2) if shape in ('one-restore', 'second-generation') or not quick else (0, 1, n + 1)
+        for a in cuts:
+          b = 1 if shape != 'second-generation' else (a + nst) % 3
+          case = mk_case(dict(kind='seq', chain=[]), mk_data(n), True, mk(a, b),
+                         dict(stages=stages), 0, idiom='self' if (a + nst + len(shape)) % 2 else 'fresh')
+          count_chain(ctx, case, 'exhaustive')
+          ctx.count('chain_shape', shape)
+          ctx.count('chain_cut', 'before-first' if a == 0 else 'after-last' if a == n else
+                    'after-stop' if a > n else 'middle')
+          yield case
+  for _ in range(250 if quick else 6000):
+    nst = rng.choice([1, 2, 3, 3, 4, 4, 5, 5])
+    scalar = rng.random() < 0.75
+    n = rng.choice([0, 1, 2, 3, 5, 8, 13])
+    data = mk_data(n, 1 if scalar else rng.choice([1, 2, 3]))
+    stages = []
+    for i in range(nst):
+      drop = None
+      if rng.random() < 0.25:
+        m = rng.choice([2, 3])
+        drop = dict(m=m, r=rng.randrange(m))
+      agg = None
+      if rng.random() < 0.55:
+        agg = rng.choice(['sumcount', 'sumcount_inplace'] if scalar else ['sumcount', 'sumcount_inplace', 'meanvar'])
+      stages.append(mk_stage(i, a=rng.choice([1, 1, 2, 3]), b=rng.choice([0, 1, 7, -2]), drop=drop, agg=agg))
+    kind = rng.choice(['seq', 'seq', 'iter'])
+    if kind == 'seq':
+      ch = rand_chain(rng, rng.choice([0, 0, 1, 2]))
+      if chain_len(n, ch) is None:
+        ch = [dict(c, off=0) for c in ch]
+      src = dict(kind='seq', chain=ch)
+    else:
+      num = rng.choice([1, 2, 3])
+      src = dict(kind='iter', idx=rng.randrange(num), num=num, off=rng.choice([0, 0, 1]))
+    case = mk_case(src, data, scalar, rand_ops(rng, n, 6), dict(stages=stages), 0,
+                   idiom=rng.choice(['fresh', 'self']))
+    count_chain(ctx, case, 'random')
+    yield case
+
+
+def is_chain(case):
+  return bool(case.get('pipe') and case['pipe'].get('stages'))
+
+
+def chain_req(case, ops):
+  src = case['src']
+  s = dict(kind='seq', chain=src['chain']) if src['kind'] == 'seq' else dict(
+      kind='iter', idx=src['idx'], num=src['num'], off=src['off'])
+  stages = [dict(name=st['name'], a=st['a'], b=st['b'], drop=st.get('drop'), agg=bool(st.get('agg')))
+            for st in case['pipe']['stages']]
+  return dict(model='resumechain', src=s, data=case['data'], stages=stages, ops=ops, final=case['final'])
+
+
+def _named(pairs):
+  """the model's agg_state [[stage name, {sum,count}], ...] -> what the API shows: {'k<name>': {...}} / None"""
+  if not pairs:
+    return None
+  return {'k' + nm: {'sum': float(v['sum']), 'count': float(v['count'])} for nm, v in pairs}
+
+
+def chain_model_obs(case, resps):
+  r, f = resps
+  if r.get('err'):
+    return dict(err=r['err'])
+  # `_ChainedRunnerIterator.__next__` (transform.py:489-506): exhaustion returns AggregateResult(agg_result, agg_state)
+  agg, fagg = _named(r['agg']), _named(f['agg'])
+  return dict(err=None, log=r['log'][:-1], final=r['log'][-1], agg=agg, agg_state=agg,
+              ret=None if agg is None else dict(result=agg, state=agg), snaps=[_named(x) for x in r['snaps']],
+              start_agg=_named(r['start_agg']),
+              full=f['log'][-1], full_agg=fagg, full_agg_state=fagg,
+              full_ret=None if fagg is None else dict(result=fagg, state=fagg))
+
+
+def chain_compare(impl, model):
+  if impl.get('err') or model.get('err'):
+    return None if impl.get('err') == model.get('err') else f"error kinds differ: impl {impl.get('err')} model {model.get('err')}"
+  for k in ('log', 'final', 'full'):
+    if impl[k] != model[k]:
+      return f'{k} differs'
+  for k in ('agg', 'agg_state', 'ret', 'snaps', 'start_agg', 'full_agg', 'full_agg_state', 'full_ret'):
+    if not deep_close(impl[k], model[k]):
+      return f'{k} differs: impl {impl[k]} model {model[k]}'
+  return None
+
+
+def chain_oracle(case, obs):
+  """Elements as for every pipeline; aggregates: the restored run ends with the SAME AggregateResult - every stage's
+  metrics - as the uninterrupted run, read through agg_result, agg_state and the returned AggregateResult; every stage
+  that was given an aggregate reports one; and a restore continues from the aggregate of the checkpoint it restores."""
+  stages = case['pipe']['stages']
+  want_keys = sorted(LC.stage_key(st) for st in stages if st.get('agg'))
+  for k in ('agg', 'agg_state', 'full_agg', 'full_agg_state'):
+    have = sorted(obs[k]) if obs[k] is not None else []
+    if have != want_keys:
+      return f'aggregate: {k} reports the stages {have}, the pipeline has aggregates at {want_keys}'
+  for k, fk in (('agg', 'full_agg'), ('agg_state', 'full_agg_state'), ('ret', 'full_ret')):
+    if not deep_close(obs[k], obs[fk]):
+      return f"aggregate: {k} after the history is {obs[k]}, the uninterrupted run's is {obs[fk]}"
+  if want_keys and (not isinstance(obs['ret'], dict) or not deep_close(obs['ret'].get('result'), obs['agg'])
+                    or not deep_close(obs['ret'].get('state'), obs['agg_state'])):
+    return f"returned: StopIteration.value is {obs['ret']}, agg_result is {obs['agg']}"
+  saved = obs['start_agg']
+  for op, snap in zip(case['ops'], obs['snaps']):
+    if op[0] == 'ckpt':
+      saved = snap
+    elif op[0] == 'restore' and not deep_close(snap, saved):
+      return f'aggregate: a restored iterator starts from {snap}, the checkpoint it restores held {saved}'
+  return None
+
+
+CHAIN_PROMISED = (
+    [('chain_stages', str(n)) for n in range(1, 6)]
+    + [('chain_agg_at', f'{n}:{i}') for n in range(1, 6) for i in range(n)]
+    + [('chain_agg_at', f'{n}:none') for n in range(1, 6)]
+    + [('chain_agg_before_last_two_restored', str(n)) for n in (3, 4, 5)]
+    + [('chain_restore_then_ckpt', str(n)) for n in range(1, 6)]
+    + [('chain_shape', k) for k in CHAIN_SHAPES]
+    + [('chain_cut', k) for k in ('before-first', 'middle', 'after-last', 'after-stop')]
+    + [('chain_restores', k) for k in ('1', '2', '3')]
+    + [('chain_filter', str(n)) for n in (3, 4, 5)]
+    + [('chain_arm', k) for k in ('exhaustive', 'random')])
+
+
+def check_chain_coverage(ctx):
+  from harness.core import InfraError
+  missing = [f'{k}[{sub}]' for k, sub in CHAIN_PROMISED if not ctx.hist.get(k, {}).get(sub)]
+  if missing:
+    raise InfraError(f'C10 chain generator missed promised arms: {missing}')
+
+
 def run_impl(case):
+  if is_chain(case):
+    return LC.run_chain_history(case)
   return L.run_history(case)
 
 
@@ -210,12 +415,16 @@ def _req(case, ops):
 
 
 def model_requests(case):
+  if is_chain(case):
+    return [chain_req(case, case['ops']), chain_req(case, [])]
   if case.get('threads', 0):
     return [_req(case, [])]               # only the schedule-independent part; the schedule replay is in extra()
   return [_req(case, case['ops']), _req(case, [])]
 
 
 def model_obs(case, resps):
+  if is_chain(case):
+    return chain_model_obs(case, resps)
   has_agg = bool(case.get('pipe') and case['pipe'].get('agg'))
 
   def agg(r):
@@ -235,6 +444,8 @@ def model_obs(case, resps):
 
 
 def compare(impl, model):
+  if 'snaps' in impl or 'snaps' in model:
+    return chain_compare(impl, model)
   if impl.get('err') or model.get('err'):
     return None if impl.get('err') == model.get('err') else f"error kinds differ: impl {impl.get('err')} model {model.get('err')}"
   if model.get('threaded'):
@@ -293,6 +504,8 @@ def oracle(case, obs):
       return 'regrouped: same rows, different outputs'
   elif got != want:
     return 'reordered: same rows, different order or batch boundaries'
+  if is_chain(case):
+    return chain_oracle(case, obs)
   if not deep_close(obs['agg'], obs['full_agg']):
     return f"aggregate: final {obs['agg']} differs from the uninterrupted run's {obs['full_agg']}"
   if not deep_close(obs.get('ret'), obs.get('full_ret')):
@@ -477,6 +690,7 @@ def threaded_cases(ctx):
 def extra(ctx):
   """Tie of the threaded transition system: the schedule observed on the real threads is replayed on the model,
   which must then deliver / lose / aggregate exactly what the real run did."""
+  check_chain_coverage(ctx)
   lean = ctx.lean
   cases = list(threaded_cases(ctx))
   runs = []
